@@ -124,3 +124,76 @@ pub fn one(c: &J) -> J {
         got
     }
 }
+
+// ---------------------------------------------------------------- impl -> spec: canonical sorting
+fn pol_j(p: &Pol, keys: &HashMap<XOnlyPublicKey, u64>, shas: &HashMap<sha256::Hash, u64>) -> J {
+    match p {
+        Policy::Unsatisfiable(_) => json!(["unsat"]),
+        Policy::Trivial => json!(["trivial"]),
+        Policy::Key(k) => json!(["key", keys[k]]),
+        Policy::Sha256(h) => json!(["sha", shas[h]]),
+        Policy::After(n) => json!(["after", n]),
+        Policy::Older(n) => json!(["older", n]),
+        Policy::And { left, right } => json!(["and", pol_j(left, keys, shas), pol_j(right, keys, shas)]),
+        Policy::Or { left, right } => json!(["or", pol_j(left, keys, shas), pol_j(right, keys, shas)]),
+        Policy::Threshold(k, subs) => json!(["thresh", k, subs.iter().map(|s| pol_j(s, keys, shas)).collect::<Vec<_>>()]),
+        _ => json!(["other"]),
+    }
+}
+fn rand_pol(rng: &mut Rng, depth: usize) -> J {
+    if depth == 0 || rng.chance(1, 4) {
+        return match rng.below(7) {
+            0 => json!(["trivial"]),
+            1 => json!(["key", 1 + rng.below(4)]),
+            2 => json!(["sha", 1 + rng.below(3)]),
+            3 | 4 => json!(["after", 1 + rng.below(9)]),
+            5 => json!(["older", 1 + rng.below(9)]),
+            _ => json!(["unsat"]),
+        };
+    }
+    match rng.below(4) {
+        0 => json!(["and", rand_pol(rng, depth - 1), rand_pol(rng, depth - 1)]),
+        1 => json!(["or", rand_pol(rng, depth - 1), rand_pol(rng, depth - 1)]),
+        _ => {
+            let n = rng.range(2, 5);
+            let subs: Vec<J> = (0..n).map(|_| rand_pol(rng, depth - 1)).collect();
+            json!(["thresh", 1 + rng.below(n), subs])
+        }
+    }
+}
+/// the same policy with the children of every commutative node reordered at random
+fn shuffle_pol(rng: &mut Rng, p: &J) -> J {
+    match p[0].as_str().unwrap() {
+        "and" | "or" => {
+            let (a, b) = (shuffle_pol(rng, &p[1]), shuffle_pol(rng, &p[2]));
+            if rng.bool() { json!([p[0], b, a]) } else { json!([p[0], a, b]) }
+        }
+        "thresh" => {
+            let mut subs: Vec<J> = p[2].as_array().unwrap().iter().map(|s| shuffle_pol(rng, s)).collect();
+            for i in (1..subs.len()).rev() { let j = rng.below(i + 1); subs.swap(i, j); }
+            json!(["thresh", p[1], subs])
+        }
+        _ => p.clone(),
+    }
+}
+/// random nested policies (thresholds of compound children included): the crate's `sorted()` of the policy and of a
+/// reordering of it, for Trace_Policy.tla
+pub fn record_sort(runs: usize, path: &str) {
+    let mut rng = Rng::from_env(16);
+    let mut out = Out::file(path);
+    let keys: HashMap<XOnlyPublicKey, u64> = (1..=4).map(|k| (keypair(k).x_only_public_key().0, k)).collect();
+    let shas: HashMap<sha256::Hash, u64> = (1..=3).map(|h| (sha256::Hash::hash(&preimage(h)), h)).collect();
+    for _ in 0..runs {
+        let pj = rand_pol(&mut rng, 3);
+        let qj = shuffle_pol(&mut rng, &pj);
+        let ev = guarded(|| {
+            let (p, q) = (policy_of(&pj), policy_of(&qj));
+            let s = p.clone().sorted();
+            let s2 = s.clone().sorted();
+            let t = q.sorted();
+            json!({"ev": "sort", "pol": pj, "perm": qj, "sorted": pol_j(&s, &keys, &shas), "perm_sorted": pol_j(&t, &keys, &shas),
+                   "idempotent": s2 == s, "perm_equal": t == s})
+        }).unwrap_or_else(|p| json!({"ev": "sort", "pol": pj, "perm": qj, "panic": p}));
+        out.emit(&ev);
+    }
+}
